@@ -118,6 +118,14 @@ def run(res, a):
             for _ in range(15 if quick else 100):
                 cut = rng.randrange(len(wire))
                 add("truncate", shared, rr, wire[:cut], wire, ch, "cut %d" % cut)
+        # every bit of every frame's length field (full frames included: a length above the frame size must not be "normalised")
+        off = 0
+        for k in range(len(fr)):
+            for bit in range(16):
+                b = bytearray(wire)
+                b[off + bit // 8] ^= 1 << (bit % 8)
+                add("lenflip", shared, rr, bytes(b), wire, ch, "bit %d (length field of frame %d)" % (off * 8 + bit, k))
+            off += len(fr[k])
         for k in range(len(fr)):
             add("drop", shared, rr, b"".join(fr[:k] + fr[k + 1:]), wire, ch, "drop frame %d" % k)
             add("dup", shared, rr, b"".join(fr[:k + 1] + fr[k:]), wire, ch, "duplicate frame %d" % k)
